@@ -15,6 +15,7 @@ import (
 	"strconv"
 	"strings"
 	"sync"
+	"time"
 	"unicode"
 	"unicode/utf8"
 
@@ -772,6 +773,18 @@ func registerExternals() {
 		panic(targetPanic{iface{types.Typ[types.String], "os.Exit called"}})
 	}
 	ext["time.Sleep"] = func(fr *frame, args []value) value { return nil }
+	// time.ParseDuration reads package tables set up by time's initialiser: computed natively
+	ext["time.ParseDuration"] = func(fr *frame, args []value) value {
+		s, ok := args[0].(string)
+		if !ok || strings.Contains(s, symMarkOpen) {
+			panic(unsupported("time.ParseDuration of a symbolic string"))
+		}
+		d, err := time.ParseDuration(s)
+		if err != nil {
+			return tuple{int64(0), fr.i.makeError(err.Error())}
+		}
+		return tuple{int64(d), iface{}}
+	}
 	ext["time.Now"] = extTimeNow
 	ext["time.Since"] = func(fr *frame, args []value) value { return int64(0) }
 	ext["time.After"] = func(fr *frame, args []value) value { return &chanv{never: true} }
